@@ -12,7 +12,7 @@ import hashlib, json, os, random, re, shutil, subprocess, time
 import vlib
 
 COMP_SRCS = ["harness/comp/comp.cpp"]
-PLAN = {"C17": (["vbyte", "logseq", "daclayout"], ["vbyte", "logseq", "dacvls"]),
+PLAN = {"C17": (["vbyte", "logseq", "daclayout", "layoutproofs"], ["vbyte", "logseq", "dacvls"]),
         "C18": (["codes", "chunk"], ["codes", "tabledec"]),
         "C19": (["succinct"], ["bitseq", "wt"]),
         "C20": (["repair"], ["repair"])}
@@ -20,6 +20,9 @@ _bad_re = re.compile(r'^<<"BAD", "(.*)">>$')
 
 
 def mc(which):
+    if which == "layoutproofs":
+        n = vlib.tlaps("LayoutProofs")
+        return vlib.TLCResult(rc=0, out="", wall=0.0, cmd="tlapm LayoutProofs.tla", distinct=0, generated=0, tlaps_obligations_proved=n)
     if which == "daclayout":
         body = "SPECIFICATION Spec\nCONSTANTS MaxSeqs = 3\nMaxLen = 3\nSyms = {1, 2}\nLenSlack = %s\nBoundFirst = %s\nINVARIANT AccessOK\nCHECK_DEADLOCK FALSE\n"
         os.makedirs(os.path.join(vlib.CACHE, "cfg"), exist_ok=True)
@@ -129,6 +132,7 @@ def run(pid, tier):
     os.makedirs(work)
     models, traces = PLAN[pid]
     states = trans = 0
+    tlaps_n = 0
     with cf.ThreadPoolExecutor(max_workers=3) as ex:
         mfut = [ex.submit(mc, w) for w in models]
         tfut = [ex.submit(trace_section, exe, w, work, tier) for w in traces]
@@ -136,6 +140,8 @@ def run(pid, tier):
             r = f.result()
             states += r.distinct
             trans += r.generated
+            if r.get("tlaps_obligations_proved"):
+                tlaps_n = r["tlaps_obligations_proved"]
         res = [f.result() for f in tfut]
     events = 0
     samples = []
@@ -147,6 +153,8 @@ def run(pid, tier):
         samples.append({"component": what, "first_events": first})
         allbad += [b for b in bad if b["p"] == pid]
     extra = {}
+    if tlaps_n:
+        extra["tlaps_obligations_proved"] = tlaps_n
     if pid == "C18":
         # table decoding is bound through the four kinds that use it (DESIGN 5/C18): members must round-trip
         from checks import csd
